@@ -26,10 +26,11 @@ m.write('C09', 'A session with four conforming clients always runs to completion
  (E, 'ex_passed_out_completes', 'C09_example_passed_out_session_completes', None),
  (E, 'ex_played_model_is_the_real_run', 'C09_example_model_is_the_real_run', None),
 ])
-m.write('C13', 'An aborted session still leaves a well-formed log of the completed boards.', IMP, '',
+m.write('C13', 'An aborted session still leaves a well-formed log of the completed boards.', IMP.replace('Proofs.SessionExamples.', 'Proofs.SessionExamples Model.Json Gen.JsonFraming Proofs.C13Cor.'), '',
  common('C13') + [
  (S, 'log_always_wellformed', 'C13_log_always_wellformed', 'for every input (conforming or not), every interrupt point and EVERY schedule: at every moment the file content is open ; record* [; close]'),
  (S, 'log_complete_when_main_ends', 'C13_abort_log_complete', 'and once the main thread has ended - returned or raised, wherever and for whatever reason - the log is complete: never opened, or open ; record* ; close. Records are single writes, so each listed board is whole'),
+ ('Proofs/C13Cor.v', 'aborted_log_parses', 'C13_aborted_log_parses', 'and such a file - written with the literals regenerated from writer.py - is one JSON document whose records are exactly those'),
  (S, 'every_schedule_reaches_canonical', 'C13_same_log_under_every_schedule_partial', 'which boards are listed does not depend on the schedule'),
  (E, 'ex_aborted_main_raised', 'C13_example_aborted', 'non-vacuity: a session abandoned on board 2 because of an unparseable call'),
  (E, 'ex_aborted_log_shape', 'C13_example_aborted_log', None),
